@@ -228,12 +228,19 @@ class Stubs:
             'print': lambda *a, **k: kernel.note('print', ' '.join(str(x) for x in a)[:80]),
             'pathos_installed': True, 'psutil_installed': True, 'glob': SimGlob(fs), 'shutil': SimShutil(fs),
         }
+        # other names under which the module holds something the simulator owns (see seams.py)
+        from . import seams
+        self.alias, self.problems = seams.aliases(module, self.values)
 
     def __enter__(self):
         d = self.module.__dict__
         for n in self.NAMES:
             self.saved[n] = d.get(n, _MISSING)
             d[n] = self.values[n]
+        for n, v in self.alias.items():
+            if n not in self.saved:
+                self.saved[n] = d.get(n, _MISSING)
+            d[n] = v
         return self
 
     def __exit__(self, *exc):
